@@ -388,8 +388,11 @@ def run_case(case, res):
     P = Expr(Add(*xt), **Xf.assumptions)
     vp = ev.value(P.sympy, tg)
     kw = request_for(case, names)
-    if 'p0_3_oo' in names and 'p0_3_oo' in _requested(kw):
-        # F29 (open): p0_3_oo can not be factored from its own expansion
+    req_ = _requested(kw)
+    if any(n_ in names and n_ in req_ for n_ in ('p0_3_oo', 'p0_3_vv')):
+        # F29 (open): the third-order density intermediates (symmetric; their
+        # expanded definitions hold pairs of alpha-equivalent terms) are factored
+        # with wrong weights
         tags = tags + ['p0_3_oo_factored']
     try:
         F = lib_call(factor_intermediates, P.copy(), **kw)
